@@ -628,7 +628,8 @@ class HDF5DataFrame(DataFrame):
 
         field_name_to_use = list(self.keys())
         if column_filter is not None:
-            field_name_to_use = val.validate_selected_keys(column_filter, self.keys())  
+            # a copy: the caller's list must not lose the name of a row filter field (see below)
+            field_name_to_use = list(val.validate_selected_keys(column_filter, self.keys()))
 
         filter_array = None
         if row_filter is not None:
